@@ -70,9 +70,12 @@ class HedValidator:
             return issues
         if hed_string == "n/a":
             return issues
+        # Identify the tags against this validator's schema first: the character check looks at the part of each
+        # tag that the schema knows, which must not be the part known to the schema the string was created with.
+        canonical_issues = hed_string._calculate_to_canonical_forms(self._hed_schema)
         for tag in hed_string.get_all_tags():
             issues += self._run_validate_tag_characters(tag, allow_placeholders=allow_placeholders)
-        issues += hed_string._calculate_to_canonical_forms(self._hed_schema)
+        issues += canonical_issues
         if error_reporter.check_for_any_errors(issues):
             return issues
         issues += self._validate_individual_tags_in_hed_string(hed_string, allow_placeholders=allow_placeholders)
